@@ -41,6 +41,18 @@ func (p *Path) envStep() {
 	p.assume(fmt.Sprintf("(forall ((a Ref)) (! (ite (= (ftag a) %d) (=> (select %s a) (select %s a)) (= (select %s a) (select %s a))) :pattern ((select %s a))))", tag, old, nh, nh, old, nh))
 }
 
+// chanTyped: a channel value carries its element type, so channels of different element types are different
+// channels (Go's type system; e.g. a context's Done channel is never one of the lane's task queues).
+func (p *Path) chanTyped(ch Val) {
+	ct, ok := ch.Ty.Underlying().(*types.Chan)
+	if !ok {
+		return
+	}
+	env := p.fx.env
+	f := env.uf("chan_elem", []string{"Ref"}, "Int")
+	p.assume(fmt.Sprintf("(=> (not (= %s nil)) (= (%s %s) %d))", ch.T, f, ch.T, env.typeTagOf(ct.Elem())))
+}
+
 func (p *Path) recordSend(ch string, v Val) {
 	p.chanSet(ch, "sends", tInt, fmt.Sprintf("(+ %s 1)", p.chanGet(ch, "sends", tInt)))
 	switch p.fx.env.sortOf(v.Ty) {
@@ -76,6 +88,7 @@ func (p *Path) selectInstr(i *ssa.Select) Val {
 	var sends []Val
 	for _, s := range i.States {
 		ch := p.val(s.Chan)
+		p.chanTyped(ch)
 		chans = append(chans, ch)
 		if s.Dir == types.SendOnly {
 			sends = append(sends, p.val(s.Send))
@@ -168,6 +181,7 @@ func (p *Path) send(i *ssa.Send) {
 	site := p.fx.site(i, "send")
 	ch := p.val(i.Chan)
 	v := p.val(i.X)
+	p.chanTyped(ch)
 	p.envStep()
 	p.oblige("sendclosed", site, "no send on a channel this thread has closed", fmt.Sprintf("(= %s 0)", p.chanGet(ch.T, "closes", tInt)))
 	p.assume(fmt.Sprintf("(not (= %s nil))", ch.T))
@@ -176,6 +190,7 @@ func (p *Path) send(i *ssa.Send) {
 
 func (p *Path) recv(i *ssa.UnOp) Val {
 	ch := p.val(i.X)
+	p.chanTyped(ch)
 	p.envStep()
 	p.assume(fmt.Sprintf("(not (= %s nil))", ch.T))
 	p.recordRecv(ch.T)
